@@ -354,7 +354,9 @@ ApplyChunk(b, st, c) ==
                   new == [i \in 1 .. Max2(Len(old), c.first + c.count) |->
                             IF i > c.first /\ i <= c.first + c.count THEN vs[i - c.first]
                             ELSE IF i <= Len(old) THEN old[i] ELSE e.def]
-              IN [st EXCEPT !.vals[c.idx + 1] = new]
+              \* SubSeq makes the sequence explicit (TLC keeps a function constructor lazy; a chain of
+              \* hundreds of PROP chunks would otherwise be re-evaluated through every earlier chunk)
+              IN [st EXCEPT !.vals[c.idx + 1] = SubSeq(new, 1, Max2(Len(old), c.first + c.count))]
 
 Complete(st) == st.nvr = st.hdr.nv /\ st.ner = st.hdr.ne /\ st.nfr = st.hdr.nf /\ st.ncr = st.hdr.nc
 
@@ -371,11 +373,21 @@ Finish(st) ==
            pos |-> st.pos, edges |-> st.edges, faces |-> st.faces, cells |-> st.cells,
            props |-> {pr(i) : i \in known}]
 
-RECURSIVE RunChunks(_, _, _)
-RunChunks(b, o, st) ==
-  IF st.bad # <<>> \/ o > Len(b) THEN st
-  ELSE LET c == DecodeChunk(b, o, st.hdr) IN
-       IF c.kind = "BAD" THEN ApplyChunk(b, st, c) ELSE RunChunks(b, o + c.len, ApplyChunk(b, st, c))
+(* The run of the machine over the chunks of a file.  Written as blocks of at most 48 chunks inside   *)
+(* blocks of at most 48 blocks ...: TLC extends its evaluation context with every nested call, so a  *)
+(* plain recursion over thousands of chunks costs quadratic time; the nesting keeps the depth small.  *)
+(* r = [o |-> next offset, st |-> state]; a run stops at the end of the file or at the first error.   *)
+RunDone(b, r) == r.st.bad # <<>> \/ r.o > Len(b)
+RunOne(b, r) ==
+  LET c == DecodeChunk(b, r.o, r.st.hdr) IN
+  IF c.kind = "BAD" THEN [o |-> r.o, st |-> ApplyChunk(b, r.st, c)] ELSE [o |-> r.o + c.len, st |-> ApplyChunk(b, r.st, c)]
+RECURSIVE RunBlock1(_, _, _)
+RunBlock1(b, r, k) == IF k = 0 \/ RunDone(b, r) THEN r ELSE RunBlock1(b, RunOne(b, r), k - 1)
+RECURSIVE RunBlock2(_, _, _)
+RunBlock2(b, r, k) == IF k = 0 \/ RunDone(b, r) THEN r ELSE RunBlock2(b, RunBlock1(b, r, 48), k - 1)
+RECURSIVE RunBlock3(_, _)
+RunBlock3(b, r) == IF RunDone(b, r) THEN r ELSE RunBlock3(b, RunBlock2(b, r, 48))
+RunChunks(b, o, st) == RunBlock3(b, [o |-> o, st |-> st]).st
 
 ParseFile(b) ==
   LET h == ParseHeader(b) IN
